@@ -129,7 +129,7 @@ def scan_trusted(text):
 ignored_float = []
 
 
-def classify(diags, fns, gen_lines):
+def classify(diags, fns, gen_lines, ill=None):
     """map verus diagnostics to functions; returns (errors, undecided_reason)"""
     errors = []
     undecided = None
@@ -161,6 +161,8 @@ def classify(diags, fns, gen_lines):
                 undecided = undecided or f"verifier gave up: {msg[:100]} (line {line})"
             else:
                 undecided = undecided or f"unsupported or ill-typed after extraction: {msg[:160]} (generated line {line}: {gen_lines[line-1].strip()[:80] if line else ''})"
+                if ill is not None:
+                    ill.append((line, msg[:160], [s_["line_start"] for s_ in spans]))
             continue
         # which function? a failing postcondition has its primary span at the exit and a secondary at the clause (or vice versa)
         cand_lines = [s["line_start"] for s in spans]
@@ -198,39 +200,53 @@ def run_unit(unit, tier="quick", want_canary=True):
     t0 = time.time()
     tmpl = os.path.join(VERIF, "units", unit, "unit.rs.tmpl")
     os.makedirs(BUILD, exist_ok=True)
-    try:
-        text, fns, meta = splice(tmpl, REPO, canary=False)
-        ctext, cfns, _ = splice(tmpl, REPO, canary=True)
-    except (LostAnchor, LexError) as e:
-        res.status = "undecided"
-        res.reason = f"lost anchor: {e}"
-        res.wall = time.time() - t0
-        return res
-    gen = os.path.join(BUILD, f"{unit}.rs")
-    open(gen, "w").write(text)
-    cgen = os.path.join(BUILD, f"{unit}_canary.rs")
-    open(cgen, "w").write(ctext)
-    res.gen_path = gen
-    res.fns = fns
-    res.trusted = scan_trusted(text)
-    extra = []
-    base_rl = (meta or {}).get("rlimit")
-    if base_rl:
-        extra = ["--rlimit", str(base_rl)]          # the unit states its own resource limit (//@UNIT rlimit=)
-    elif tier == "thorough":
-        extra = ["--rlimit", "40"]
-    retry_rl = str(max(40, 2 * (base_rl or 0)))
-    with concurrent.futures.ThreadPoolExecutor(max_workers=2) as ex:
-        f1 = ex.submit(run_verus, gen, extra)
-        f2 = ex.submit(run_verus, cgen, extra) if want_canary else None
-        cmd, js, diags, fatal, wall = f1.result()
-        cres = f2.result() if f2 else None
-    res.cmd = " ".join(cmd)
-    if js is None and not diags:
-        res.status = "undecided"
-        res.reason = "verus produced no result: " + str(fatal)[:300]
-        res.wall = time.time() - t0
-        return res
+    quarantine = {}
+    for attempt in range(4):
+        try:
+            text, fns, meta = splice(tmpl, REPO, canary=False, quarantine=quarantine)
+            ctext, cfns, _ = splice(tmpl, REPO, canary=True, quarantine=quarantine)
+        except (LostAnchor, LexError, TemplateError) as e:
+            res.status = "undecided"
+            res.reason = f"lost anchor: {e}"
+            res.wall = time.time() - t0
+            return res
+        gen = os.path.join(BUILD, f"{unit}.rs")
+        open(gen, "w").write(text)
+        cgen = os.path.join(BUILD, f"{unit}_canary.rs")
+        open(cgen, "w").write(ctext)
+        res.gen_path = gen
+        res.fns = fns
+        res.trusted = scan_trusted(text)
+        extra = []
+        base_rl = (meta or {}).get("rlimit")
+        if base_rl:
+            extra = ["--rlimit", str(base_rl)]          # the unit states its own resource limit (//@UNIT rlimit=)
+        elif tier == "thorough":
+            extra = ["--rlimit", "40"]
+        retry_rl = str(max(40, 2 * (base_rl or 0)))
+        with concurrent.futures.ThreadPoolExecutor(max_workers=2) as ex:
+            f1 = ex.submit(run_verus, gen, extra)
+            f2 = ex.submit(run_verus, cgen, extra) if want_canary else None
+            cmd, js, diags, fatal, wall = f1.result()
+            cres = f2.result() if f2 else None
+        res.cmd = " ".join(cmd)
+        if js is None and not diags:
+            res.status = "undecided"
+            res.reason = "verus produced no result: " + str(fatal)[:300]
+            res.wall = time.time() - t0
+            return res
+        # a real body that no longer type-checks against its stand-ins is set aside (its obligation becomes undecided)
+        # and the unit is run again, so that the other obligations are still decided
+        ill = []
+        classify(diags, fns, text.split("\n"), ill)
+        newq = {}
+        for (line, msg, sl) in ill:
+            for f in fns:
+                if f.kind == "body" and f.lost is None and f.body_lines[0] and any(l and f.body_lines[0] <= l <= f.body_lines[1] for l in [line] + sl):
+                    newq.setdefault(f.name, f"real body ill-typed against the unit's stand-ins: {msg}")
+        if not newq or attempt == 3:
+            break
+        quarantine.update(newq)
     gen_lines = text.split("\n")
     errors, undecided = classify(diags, fns, gen_lines)
     vr = (js or {}).get("verification-results", {})
@@ -286,7 +302,7 @@ def run_unit(unit, tier="quick", want_canary=True):
                 res.status = "undecided"
                 res.reason = "canary file: " + cund
             for f in cfns:
-                if f.known:
+                if f.known or f.lost:
                     continue
                 failed = any(e["fninfo"] is f for e in cerrors)
                 res.canary_ok[f.name] = failed
@@ -394,7 +410,10 @@ def main():
             obligations.append(oid)
             if r.canary_ok.get(f.name):
                 canaries += 1
-            if errs and f.lost_hints:
+            if f.lost:
+                undecided.append(f"{oid}: {f.lost}")
+                rec["status"] = "undecided (lost anchor / ill-typed real body)"
+            elif errs and f.lost_hints:
                 undecided.append(f"{oid}: proof hint anchor lost ({f.lost_hints[0]}) and the proof does not go through without it: {errs[0]['msg']}")
                 rec["status"] = "undecided"
             elif errs:
